@@ -69,3 +69,37 @@ Theorem C14_enum_len_stable : forall bs n, EnumScanner.enum_len bs = (EnumScanne
   EnumScanner.enum_len (firstn (N.to_nat n) bs) = (EnumScanner.VOk, n).
 Proof. exact EnumProofs.enum_len_stable. Qed.
 Print Assumptions C14_enum_len_stable.
+
+(* Property C14 for Schema.Len (model SchemaScanner.schema_len).  What Len returns is a prefix
+   length: not longer than the text and, when positive, not ending in a blank.
+   "Positive" does NOT hold for every text: Len is 0 for an empty text, a text of blanks, a text that
+   is only a comment, or a lone '/' (see the examples below).  The requested statement is therefore
+   split: C14_schema_len_prefix is the requested one without (0 < n) (and with the last-byte clause
+   guarded by 0 < n); C14_schema_len_positive gives (0 < n) for every text that begins, after blanks,
+   with a byte other than '#' and '/', i.e. with a value.
+   Proofs in SchemaScan/SchemaProofs.v. *)
+From JS Require SchemaScan.SchemaScanner SchemaScan.SchemaProofs.
+
+Theorem C14_schema_len_prefix : forall (bs : Wire.bytes) n,
+  SchemaScanner.schema_len bs = SchemaScanner.VLen n ->
+  (N.to_nat n <= List.length bs)%nat /\
+  (forall c, nth_error bs (N.to_nat n - 1) = Some c -> (0 < n)%N -> SchemaScanner.is_blank c = false).
+Proof. exact SchemaProofs.schema_len_prefix. Qed.
+Print Assumptions C14_schema_len_prefix.
+
+Theorem C14_schema_len_positive : forall (pre : Wire.bytes) c (r : Wire.bytes) n,
+  forallb SchemaScanner.is_blank pre = true -> SchemaScanner.is_blank c = false ->
+  SchemaScanner.ch c 35 = false -> SchemaScanner.ch c 47 = false ->
+  SchemaScanner.schema_len (pre ++ c :: r) = SchemaScanner.VLen n -> (0 < n)%N.
+Proof. exact SchemaProofs.schema_len_positive. Qed.
+Print Assumptions C14_schema_len_positive.
+
+Example C14_schema_len_examples :
+  SchemaScanner.schema_len [] = SchemaScanner.VLen 0 /\
+  SchemaScanner.schema_len (of_string "  "%string) = SchemaScanner.VLen 0 /\
+  SchemaScanner.schema_len (of_string "#abc"%string) = SchemaScanner.VLen 0 /\
+  SchemaScanner.schema_len (of_string "/"%string) = SchemaScanner.VLen 0 /\
+  SchemaScanner.schema_len [x0a; x0a] = SchemaScanner.VLen 0 /\
+  SchemaScanner.schema_len (of_string "12 x"%string) = SchemaScanner.VLen 2 /\
+  SchemaScanner.schema_len (of_string "{} // {a: 1}  "%string ++ [x0a] ++ of_string "GET"%string) = SchemaScanner.VLen 12.
+Proof. vm_compute. repeat split; reflexivity. Qed.
